@@ -149,7 +149,8 @@ func checkTransport(t *rapid.T, kind string, tr *http.Transport, cfg *config.Con
 func TestC19Structural(t *testing.T) {
 	ln, err := net.Listen("tcp", "127.0.0.1:0")
 	if err != nil {
-		t.Fatal(err)
+		// an environment problem (e.g. no free ephemeral port), not a verdict on fabio
+		t.Skipf("VERIF-INCONCLUSIVE cannot listen: %v", err)
 	}
 	defer ln.Close()
 	go func() {
@@ -259,6 +260,39 @@ func TestC19ResponseHeaderTimeout(t *testing.T) {
 			start := time.Now()
 			p.ServeHTTP(rec, req)
 			return rec.Code, rec.Body.String(), time.Since(start)
+		}
+		// more simultaneous requests than idle connections per host must not queue behind each other
+		if slow && rapid.Bool().Draw(t, "burst") {
+			cfg.Proxy.MaxConn = rapid.IntRange(1, 2).Draw(t, "maxconn_small")
+			cfg.Proxy.ResponseHeaderTimeout = T
+			transport.SetConfig(cfg)
+			tg := &route.Target{Service: "svc", URL: upURL}
+			p := &proxy.HTTPProxy{Transport: transport.NewTransport(nil), InsecureTransport: transport.NewTransport(&tls.Config{InsecureSkipVerify: true}), Lookup: func(*http.Request) *route.Target { return tg }}
+			atomic.StoreInt64(&delay, int64(D))
+			const K = 5
+			type r struct {
+				code int
+				took time.Duration
+			}
+			res := make(chan r, K)
+			for i := 0; i < K; i++ {
+				go func() {
+					rec := httptest.NewRecorder()
+					req := httptest.NewRequest("GET", "http://example.com/", nil)
+					req.RemoteAddr = "192.0.2.1:1234"
+					t0 := time.Now()
+					p.ServeHTTP(rec, req)
+					res <- r{rec.Code, time.Since(t0)}
+				}()
+			}
+			for i := 0; i < K; i++ {
+				x := <-res
+				hx.Eval()
+				if x.code != 504 || x.took > T+1500*time.Millisecond {
+					t.Fatalf("%d simultaneous requests to a slow upstream with proxy.maxconn=%d: one was answered %d after %v, want 504 after about %v", K, cfg.Proxy.MaxConn, x.code, x.took, T)
+				}
+			}
+			hx.Class("slow-upstream:burst-above-maxconn")
 		}
 		code, body, took := run(T)
 		hx.Eval()
